@@ -110,6 +110,11 @@ def run_one(seed, preset=None, tier="quick", want_case=False):
                 p, k = sites[ft.draw(len(sites))]
                 chosen[p] = k
             fault_sets.append(chosen)
+    bt = tape.sub("basefault")
+    resolver_sites = [p for p, k in sites if k == "raise"]
+    if resolver_sites and bt.chance(12):
+        # one dedicated execution per such run: a resolver fails with a BaseException (see known_findings.json)
+        fault_sets.append({resolver_sites[bt.draw(len(resolver_sites))]: "raise_base"})
     name = "%s_%d" % (ID, seed)
     distinct = set()
     try:
@@ -163,6 +168,28 @@ def run_one(seed, preset=None, tier="quick", want_case=False):
                     if not same(out.resp.get("data"), derived):
                         vs.append(V("other_parts_changed", "data differs from the fault-free response outside the nulled "
                                     "position(s): %s" % first_diff(out.resp.get("data"), derived)))
+            if vs and list(fs.values()) == ["raise_base"]:
+                # one violation per such execution, classified by what became of the exception
+                def has_exc(x, d=0):
+                    if isinstance(x, BaseException):
+                        return True
+                    if d < 60 and isinstance(x, dict):
+                        return any(has_exc(y, d + 1) for y in x.values())
+                    if d < 60 and isinstance(x, list):
+                        return any(has_exc(y, d + 1) for y in x)
+                    return False
+                if out.exc is not None and isinstance(out.exc, BaseException) and not isinstance(out.exc, Exception):
+                    mode = "escaped_from_execute"
+                elif out.exc is None and isinstance(out.resp, dict) and (has_exc(out.resp.get("data")) or not any(
+                        isinstance(e, dict) and tuple(e.get("path") or ()) == tuple(list(fs)[0]) for e in (out.resp.get("errors") or []))):
+                    # the exception object sits in data as the field's value, or went down with an enclosing
+                    # position nulled for another reason: either way no error reports the failing field
+                    mode = "not_reported"
+                else:
+                    mode = "other"
+                vs = [V("base_exception_not_contained", "a resolver failing with a BaseException (CancelledError of a future cancelled by "
+                        "somebody else / an application BaseException) is not contained as a field error: %s; first symptom: %s: %s" % (
+                            mode, vs[0]["clause"], vs[0]["detail"][:200]), mode=mode)]
             for v in vs:
                 v["detail"] = "[faults %s] %s" % ({repr(list(p)): k for p, k in fs.items()}, v["detail"])
                 v["sig"]["fault_kinds"] = sorted(set(fs.values()))
